@@ -845,6 +845,19 @@ impl Inner {
                     return Err(Error::library_go_away(Reason::PROTOCOL_ERROR));
                 }
 
+                if stream.state.is_local_error() {
+                    // We have reset this stream. The peer may have sent the
+                    // PUSH_PROMISE before it saw our RST_STREAM, which is not
+                    // an error (RFC 9113, section 6.6): refuse the promised
+                    // stream instead. (A peer that may not push at all is
+                    // still a connection error.)
+                    self.actions.recv.ensure_can_reserve()?;
+                    self.counts
+                        .peer()
+                        .ensure_can_open(promised_id, Open::PushPromise)?;
+                    return Err(Error::library_reset(promised_id, Reason::CANCEL));
+                }
+
                 // The stream must be receive open
                 if !stream.state.ensure_recv_open()? {
                     proto_err!(conn: "recv_push_promise: initiating stream is not opened");
